@@ -1243,4 +1243,7 @@ class _CompiledImporter:
             return ExcelOpxWrapper.RangeData(address, cell_value, None)
 
         else:
+            if isinstance(cell_value, float):
+                # the yaml loader produces a float subclass
+                cell_value = float(cell_value)
             return ExcelOpxWrapper.RangeData(address, '', cell_value)
